@@ -1431,11 +1431,45 @@ def judge_c09(r):
     return []
 
 
+def _calls_in(x):
+    """function ids called anywhere inside a (nested) program term"""
+    out = set()
+    if isinstance(x, (list, tuple)):
+        if len(x) >= 2 and x[0] == "call" and isinstance(x[1], int):
+            out.add(x[1])
+        for y in x:
+            out |= _calls_in(y)
+    return out
+
+
+def calls_function_defined_later(p):
+    """Is some function executed (through a chain of calls that starts at a top-level statement) before the `def`
+    of a function it calls has been executed?  The interprocedural form of D12: every function involved is defined
+    somewhere in the file, so the checker's global context knows it, but Python has not bound it yet."""
+    where = {s[1]: i for i, s in enumerate(p) if s[0] == "fun"}
+    body_calls = {s[1]: _calls_in(s[5:]) for s in p if s[0] == "fun"}
+    for i, s in enumerate(p):
+        if s[0] == "fun":
+            continue
+        todo, seen = list(_calls_in(s)), set()
+        while todo:
+            f = todo.pop()
+            if f in seen:
+                continue
+            seen.add(f)
+            if f in where and where[f] > i:
+                return True
+            todo += list(body_calls.get(f, ()))
+    return False
+
+
 def judge_c09_run(r, status):
     """cause for a NameError / UnboundLocalError of the emitted Python of an accepted program."""
     mine = [x for x in r.issues if x.prop == "C09"]
     if mine:
         return mine[0].cause
+    if status == "NameError" and calls_function_defined_later(r.p):
+        return "call-before-def-transitive"
     if status == "UnboundLocalError" and rebinds_outer(r.p):
         return "runtime-UnboundLocalError-function-rebinds-outer-name"
     return "runtime-" + status
